@@ -5479,10 +5479,24 @@ class Entity(object, metaclass=EntityMeta):
         assert obj._save_pos_ is not None, 'save_pos is None for %s object' % obj._status_
         assert not cache.saved_objects
         with cache.flush_disabled():
-            obj._before_save_() # should be inside flush_disabled to prevent infinite recursion
+            obj._before_save_with_principal_objects_(set()) # should be inside flush_disabled to prevent infinite recursion
                                 # TODO: add to documentation that flush is disabled inside before_xxx hooks
             obj._save_()
         cache.call_after_save_hooks()
+    def _before_save_with_principal_objects_(obj, visited):
+        # obj._save_() also saves the newly created objects obj refers to: their before_insert hooks should be called too
+        if obj in visited: return
+        visited.add(obj)
+        obj._before_save_()
+        status = obj._status_
+        if status == 'created': attrs = obj._attrs_with_columns_
+        elif status == 'modified': attrs = obj._attrs_with_bit_(obj._attrs_with_columns_, obj._wbits_)
+        else: return
+        for attr in attrs:
+            if not attr.reverse: continue
+            val = obj._vals_[attr]
+            if val is not None and val._status_ == 'created':
+                val._before_save_with_principal_objects_(visited)
     def _before_save_(obj):
         status = obj._status_
         if status == 'created': obj.before_insert()
